@@ -1049,7 +1049,8 @@ static void build_expr(WorkList *list, ASTNode *expr, Environment *env) {
                             emit_literal(list, "({ assert(false && \"unary minus requires array<int> or array<float>\"); (DynArray*)0; })");
                         }
                     } else {
-                        emit_literal(list, "(-");
+                        /* the space keeps the minus sign of a negative literal apart: `(- -371)` is (- -371LL), not (--371LL) */
+                        emit_literal(list, "(- ");
                         build_expr(list, expr->as.prefix_op.args[0], env);
                         emit_literal(list, ")");
                     }
